@@ -236,6 +236,22 @@ def _(lm):
     lm.case("cost_basis_preserved", lambda ex: ([no_fee == cin * spot, fiat_fee == fee * spot, with_fee == no_fee + fiat_fee], with_fee == cin * spot + fee * spot))
 
 
+def canaries(pr):
+    def twelve_digits(pr):
+        vcs = numbers(pr)
+        f = A.func_node(pr.tree, "rp2.ods_parser._process_constructor_argument_pack")
+        fmt = [n for n in ast.walk(f) if isinstance(n, ast.FormattedValue) and n.format_spec is not None] if f else []
+        spec = ["".join(v.value for v in n.format_spec.values if isinstance(v, ast.Constant)) for n in fmt]
+        digits = [int(x[1:-1]) for x in spec if x.startswith(".") and x.endswith("f") and x[1:-1].isdigit()]
+        return [A.bvc("canary", "post", "at_least_12_decimal_digits_are_kept", bool(digits) and min(digits) >= 12, REL)]
+
+    def fee_asset_from_sheet(pr):
+        f = _split_fn(pr)
+        calls = [n for n in ast.walk(f) if isinstance(n, ast.Call) and A.dotted(n.func) == "InTransaction"] if f else []
+        kw = {k.arg: ast.unparse(k.value) for k in calls[0].keywords} if len(calls) == 1 else {}
+        return [A.bvc("canary", "post", "split_takes_the_asset_from_the_set", kw.get("asset") == "unfiltered_transaction_sets[EntrySetType.IN].asset", REL)]
+    return [("twelve_digits_must_fail", twelve_digits), ("asset_from_set_must_fail", fee_asset_from_sheet)]
+
 MANIFEST_ENTRY = {
     "category": "other",
     "text": ("Row handling from the decision table of parse_ods' row loop (symbolic execution of the real body; z3): each data row processed exactly once with "
